@@ -46,6 +46,9 @@ Dual(t) == IF TestOf(t) = "anyof" THEN "allof" ELSE "anyof"
 ASSUME \A pf \in {p \in PF1 : ~p.isnd /\ p.tms # << >> /\ TestOf(p.test) \in ValidTest /\ \A k \in 1..Len(p.tms) : MTOf(p.tms[k].mt) \in ValidMT} :
          \A c \in {x \in Cards1 : Has(x, "N1")} :
            PropVals(pf, c) = {~b : b \in PropVals([NegAll(pf) EXCEPT !.test = Dual(pf.test)], c)}
+\* the in-order evaluation agrees with the declarative semantics on valid queries
+ASSUME \A q \in Q2 : \A c \in Cards2 : ~InvalidIn(q) => \A g \in {"T", "F"} : (LazyQuery(q, c, g) = "T") \in QueryVals(q, c)
+ASSUME \A q \in Q1 : \A c \in Cards1 : ~InvalidIn(q) => \A g \in {"T", "F"} : LazyQuery(q, c, g) # "E" /\ (LazyQuery(q, c, g) = "T") \in QueryVals(q, c)
 \* a valid query has exactly one value
 ASSUME \A q \in Q2 : \A c \in Cards2 : ~InvalidIn(q) => Cardinality(QueryVals(q, c)) = 1
 \* limit-prefix law: the limited result is a prefix of the unlimited one
